@@ -184,6 +184,14 @@ def exact(f, node, at, stop=(), depth=0):
     n = _name(f, j)
     if n is not None:
         return ({n: 1}, 0)
+    # any other side-effect free expression (a product, a quotient): an opaque term named by its text; identical
+    # expressions are the same term
+    if e["k"] in ("bin", "un", "cast") and not any(f.exprs[x]["k"] in ("asg", "call") or
+                                                   (f.exprs[x]["k"] == "un" and f.exprs[x].get("op") in ("++", "--"))
+                                                   for x in ex.walk(f, j)):
+        nm = "<%s>" % ex.pretty(f, j)
+        f._cache.setdefault("lin_opaque", {})[nm] = j
+        return ({nm: 1}, 0)
     return None
 
 
